@@ -145,8 +145,13 @@ func (v *verifRun) reRandom(depth int) *reNode {
 
 // reNear: a pattern related to val — exact, a prefix/suffix alternative, wildcard variants, or random.
 func (v *verifRun) reNear(val string) *reNode {
-	switch v.rng.Intn(7) {
+	switch v.rng.Intn(8) {
 	case 0:
+		return reLit(val)
+	case 5:
+		if len(val) > 1 { // proper-prefix|val: the full match is the second choice of a leftmost-first matcher
+			return &reNode{T: "alt", A: reLit(val[:1+v.rng.Intn(len(val)-1)]), B: reLit(val)}
+		}
 		return reLit(val)
 	case 1: // val|other: with ungrouped anchors this matches val-prefixed and other-suffixed strings
 		return &reNode{T: "alt", A: reLit(val), B: reLit("zz")}
